@@ -31,6 +31,7 @@ TReset == /\ IsEv("Reset")
           /\ tm' = [i \in T |-> NoTimer] /\ heap' = {} /\ lastfire' = NoFire /\ prevDl' = 0 /\ ret' = TRUE
 TNext ==
   \/ TReset
+  \/ IsEv("info") /\ kind = Ev.kind /\ UNCHANGED vars          \* execution header repeated for replay files
   \/ IsEv("create") /\ InCb /\ Create(Ev.i) /\ Post
   \/ IsEv("init") /\ InCb /\ Initialize(Ev.i, Ev.d, Ev.m) /\ Post
   \/ IsEv("enable") /\ InCb /\ Enable(Ev.i) /\ Post
